@@ -26,6 +26,11 @@ def _gen(prop, target, repo_path):
     """symbolically execute one target; returns (exec, obligations) or raises Unsupported"""
     mod, reg = load(prop)
     repo = core.Repo(repo_path)
+    alt = getattr(mod, "VERIFY_AS", {}).get(target)
+    if alt is not None:
+        # the function is verified against this contract (also used for its recursive calls); what callers assume
+        # (reg entry) is derived from it by the module's bridging lemma
+        reg.add(alt(reg))
     c = reg.get(target)
     if c is None:
         raise RuntimeError("no contract for %s" % target)
